@@ -205,6 +205,9 @@ func c15Child(a *ChildArgs) {
 			{"ragged-insert", "INSERT INTO audit ( id ) VALUES ( 1 ) , ( 2 , ( SELECT secret FROM vault WHERE h ( k ) = 0 ) ) , ( 3 , 4 , g ( m ) )", []string{"audit", "vault"}, []string{"id", "secret", "k", "m"}, []string{"h", "g"}},
 			{"case-three-arms", "SELECT CASE WHEN a = f1 ( 1 ) THEN g1 ( b ) WHEN c = ( SELECT m FROM w1 ) THEN h1 ( d ) WHEN e THEN ( SELECT n FROM w2 ) ELSE k1 ( 4 ) END FROM t",
 				[]string{"t", "w1", "w2"}, []string{"a", "b", "c", "d", "e", "m", "n"}, []string{"f1", "g1", "h1", "k1"}},
+			{"two-statements-same-names", "SELECT count ( id ) FROM users WHERE lower ( n ) = 'x' ; SELECT count ( id ) , lower ( n ) FROM users , orders WHERE id = uid ; UPDATE users SET n = lower ( n )",
+				[]string{"users", "orders"}, []string{"id", "n", "uid"}, []string{"count", "lower"}},
+			{"lower-case-niladic", "select current_date , Current_Timestamp , localtime , a from t where b < session_user", []string{"t"}, []string{"a", "b"}, nil},
 			{"array-constructor", "SELECT ARRAY [ 1 , f ( a ) , ( SELECT z FROM q ) ] FROM t", []string{"t", "q"}, []string{"a", "z"}, []string{"f"}},
 		} {
 			g := gen.New(rand.New(rand.NewSource(42)), nil)
